@@ -632,6 +632,7 @@ class Interp:
         names = sorted(self.live_names(fn, lp)) if lp is not None else sorted(env)
         phis = self.flag_phis(fn, lp) if lp is not None else set()
         callargs = self.loop_callargs(fn, lp) if lp is not None else ()
+        smallc = self.ctx.limits.get('partition_small_consts', False)
         for n in names:
             v = env.get(n)
             if v is None:
@@ -643,7 +644,7 @@ class Interp:
                 elif n in callargs:
                     lo, hi = S.bounds(v.a)
                     key.append((n, 0 if hi == 0 else ('+' if lo > 0 else '?')))
-                elif v.w <= 8 and not v.a.t:
+                elif smallc and v.w <= 8 and not v.a.t:
                     key.append((n, v.a.c))          # small constants select modes (widths, type bytes)
             elif isinstance(v, Ptr):
                 key.append((n, v.region))
@@ -660,7 +661,7 @@ class Interp:
                 if o.t:
                     continue
                 if isinstance(v, Int):
-                    if islocal and not o.t and v.w <= 8 and not v.a.t:
+                    if smallc and islocal and not o.t and v.w <= 8 and not v.a.t:
                         key.append((rname, k, v.a.c))
                     if not islocal and not o.t:
                         c = S.const_of(v.a)
@@ -710,6 +711,9 @@ class Interp:
 
     # ---- join with candidate invariants ---------------------------------------------------------------------
     def generalise(self, fn, states, lp, why, widen=False, prev=None):
+        for s_ in states:
+            if not s_.tags.get('_places') or True:
+                self.hooks.before_join(s_, fn, why)
         base = states[0]
         H = base.copy()
         n = len(states)
@@ -808,11 +812,23 @@ class Interp:
         headsyms = {p[1] for p in places}
         for hs in headsyms:
             newivl[hs] = S.ivl[hs]
-        relkeys = set(base.store.relset)
-        for s in states[1:]:
-            relkeys &= s.store.relset
+        # common relational part: same terms in every state, weakest constant
+        keep_rel = []
+        for e in base.store.rel:
+            tk = e.key()[1]
+            c = e.c
+            ok = True
+            for s in states[1:]:
+                o = s.store.byterms.get(tk)
+                if o is None:
+                    ok = False
+                    break
+                if o.c > c:
+                    c = o.c
+            if ok and all(x in newivl for x in e.t):
+                keep_rel.append(e if c == e.c else Aff(c, dict(e.t)))
         S.ivl = newivl
-        S.set_rel([e for e in base.store.rel if e.key() in relkeys and all(x in newivl for x in e.t)])
+        S.set_rel(keep_rel)
         nk = None
         for s in states:
             ks = {e.key() for e in s.store.neq}
@@ -1346,8 +1362,6 @@ class Interp:
             if len(g) == 1 or k[0] == 'S':
                 out.extend(g)
                 continue
-            for x in g:
-                self.hooks.before_join(x[0], fn, 'return of %s' % fn.name)
             H = self.generalise(g[0][0].top.fn, [x[0] for x in g], None, 'return of %s' % fn.name)
             out.append((H, g[0][1]))
         return out
